@@ -1,6 +1,6 @@
 (* C12 — repair (RepairState visitor through TreeModifier) and copy (closure of the destination). *)
 From Verif.Base Require Import Tactics.
-From Verif.C12 Require Import Model Proofs Proofs2.
+From Verif.C12 Require Import Extracted Model Proofs Proofs2.
 From Verif.C13 Require Extracted Model Proofs Proofs2 Props.
 Local Open Scope N_scope.
 
@@ -192,6 +192,16 @@ Proof.
   rewrite N.eqb_refl. destruct t; reflexivity.
 Qed.
 
+(* the walk covers the whole reachable set — provable only when it starts from every snapshot root *)
+Lemma seen_covers_reach tid dst snaps b : In b (flat_map (reach tid) snaps) -> In b (seen tid dst snaps).
+Proof.
+  intro H. unfold seen, walked.
+  change copy_walk_from_all_snapshot_trees with true. cbv iota.
+  apply in_flat_map in H. destruct H as [t [Ht Hb]]. apply in_or_app. destruct Hb as [<-|Hb].
+  - left. apply (in_map (fun t => (Tree, tid t))). exact Ht.
+  - right. apply in_flat_map. exists t. split; assumption.
+Qed.
+
 Lemma copy_closed_lemma : forall tid src dst snaps es s,
   (forall b, In b (flat_map (reach tid) snaps) -> has src b = true) ->
   P13.run P13.init es = Some s -> P13.final s = true ->
@@ -201,7 +211,7 @@ Proof.
   intros tid src dst snaps es s Hsrc Hrun Hfin Hreq b Hb. rewrite has_app.
   destruct (has dst b) eqn:Ed; [reflexivity|]. cbn [orb].
   assert (In b (needed tid src dst snaps)) as Hn.
-  { unfold needed. apply filter_In. split; [exact Hb|]. rewrite Ed, (Hsrc b Hb). reflexivity. }
+  { unfold needed. apply filter_In. split; [apply seen_covers_reach; exact Hb|]. rewrite Ed, (Hsrc b Hb). reflexivity. }
   specialize (Hreq b Hn). destruct b as [t i]. unfold conv in Hreq. cbn [fst snd] in Hreq.
   destruct (Verif.C13.Props.every_final_state_indexes_all_typed es s Hrun Hfin (or_introl eq_refl) _ _ Hreq) as [pk [Hpk Hi]].
   apply has_in. unfold indexed_blobs. apply in_flat_map.
